@@ -1183,6 +1183,12 @@ def o_c17(tr):
             continue
         dn = d.ent_params["denom"]; locked = d.total_locked[0] if d.total_locked[1] == dn else None
         bank = dict(d.supply)
+        # the circulating-supply figures are served whenever they exist: books in the parameter denomination, locked <= supply
+        for q in tr.queries:
+            if q["gap"] != gap or q["result"] == "ok" or locked is None or not (0 <= locked <= bank.get(dn, 0)):
+                continue
+            if q["kind"] in ("ent.totalunlocked", "ent.totallocked") or (q["kind"] == "ent.supplyof" and q["args"] and valid_denom(q["args"][0])):
+                yield {"oracle": "supply-figure-served", "signature": q["kind"], "detail": "QUERY %s %s %s answers with an error (supply %d, locked %d)" % (q["n"], q["kind"], " ".join(q["args"]), bank.get(dn, 0), locked)}
         for q in qs:
             if q["kind"] == "ent.supplyof" and q["toks"]:
                 a, den = coin(q["toks"][0])
